@@ -56,6 +56,9 @@ CHECKS = {
  "C24": ("exploration", "defect-by-construction mutation monitor over the real compiler and Runtime loader",
    "120/4000 base programs x every defect operator (undeclared metric, $k beyond groups, unknown $name, sibling-pattern capture, undefined decorator, next outside decorator, key too many/few, redeclared, unused declaration incl. nested and hidden, invalid regexes, regex over default/custom limits, Int / and % by literal 0) at every eligible site (~13k / ~430k mutants): each must be rejected with an error whose position lies inside the source; a sample is loaded through Runtime.CompileAndRun with the line hook verifying no VM runs and the load-error counter moves.",
    "Defect classes are guaranteed by how each operator is built; positions parsed from the error text.", "§4 C24"),
+ "C26": ("exploration", "executable model of the statement vs real runtime.Runtime over filesystem histories, observed at the VM line hook (under -race)",
+   "Every history of length <=2 (quick) / <=3 (thorough) over 17 steps on two program files plus 150/6000 random length-12 histories over three, in a real directory that also holds a dot-file, a README, a .bak file and a sub-directory all containing valid programs; after every step + LoadAllPrograms a numbered probe line (followed by two barrier lines that make its processing complete) is pushed; the (program, VM) pairs that processed it, the marker gauge of each running version, probe counters and prog_loads/unloads/load_errors_total are compared with the model.",
+   "Barrier lines make 'who processed the probe' a logical, not timed, observation.", "§4 C26"),
 }
 NOT_APPLICABLE = {}
 
